@@ -4,6 +4,7 @@
 (* models: extractors (^ .key #index), literals, :variables.  The AST is a *)
 (* subset of the one Expr.tla evaluates:                                   *)
 (*   [op |-> "ext", up |-> n, path |-> <<[k |-> "key", name |-> cps] | [k |-> "idx", i |-> n]>>]   *)
+(*   [op |-> "ictx", what |-> "index" | "index-in-file"]                                             *)
 (*   [op |-> "lit", v |-> value]   [op |-> "var", name |-> cps]   [op |-> "none"]                  *)
 (***************************************************************************)
 EXTENDS JsonValues
@@ -22,5 +23,7 @@ CoreEv(e, c) ==
   CASE e.op = "ext" -> Extract(ParentInput(c, e.up), e.path, 1)
     [] e.op = "lit" -> e.v
     [] e.op = "var" -> VarOf(c, e.name)
+    \* &index / &index-in-file: the ordinal of the record the context descends from (also behind --split-by and in later stages)
+    [] e.op = "ictx" -> DecOfInt(IF e.what = "index" THEN c.idx ELSE c.fidx)
     [] e.op = "none" -> Nothing
 =============================================================================
